@@ -16,6 +16,7 @@ T20 == "1/5"    \*              beta = 22.62 deg
 T25 == "1/4"    \*              beta = 28.07 deg
 A20 == Rad("20")
 A25 == Rad("25")
+A30 == Rad("30")
 O(kind, teeth, module, th, alpha, name) ==
    [kind |-> kind, teeth |-> teeth, module |-> module, th |-> th, alpha |-> alpha, name |-> name]
 Universe == [
@@ -31,6 +32,9 @@ Universe == [
   W   |-> O("WormGear", 2, Null, T10, A20, "W"),
   W2  |-> O("WormGear", 1, Null, T20, A20, "W2"),
   W3  |-> O("WormGear", 3, Null, "1/40", A20, "W3"),             \* flat helix (2.9 deg): self-locking already for f > 0.047
+  W4  |-> O("WormGear", 2, Null, "2/5", A30, "W4"),              \* steep helix (43.6 deg, legal only at 30 deg): as a master its
+                                                                  \* efficiency is NEGATIVE for f > cos(30)/tan(43.6) = 0.909
+  Wh3 |-> O("WormWheel", 44, Null, "2/5", A30, "Wh3"),
   Wh  |-> O("WormWheel", 40, Null, T10, A20, "Wh"),
   Wh2 |-> O("WormWheel", 50, Null, T10, A25, "Wh2") ]
 
